@@ -1,1 +1,371 @@
-"""Rules for C06 (see DESIGN.md section 5)."""
+"""C06 -- requested mask used; automatic mask minimises the ISO penalty."""
+import ast
+from fractions import Fraction
+
+from .. import ev, iso, nf, pat, src, reg
+from ..core import rule, ob, explain, Ob
+from ..ev import PyRaise
+from ..interp import Interp, make_callable, FuncVal
+from ..src import Unknown
+from .common import C, levels, micro_versions, table_ob, need, single
+from .models import encoder_env
+from . import wrappers
+
+explain('C06', '''Decided (structural): each of the eight mask predicates equals ISO Table 10 on a 24x24 window (a
+multiple of every period that can occur) and the QR / Micro tuples list them in the ISO order (0..7 / 1,4,6,7); the
+selection loop of find_and_apply_best_mask is interpreted with the scoring function replaced by an arbitrary score
+vector (ties included) and always returns the lowest-numbered optimum together with the matrix masked by it, built from
+row copies; a requested mask applies exactly that predicate to the given matrix and is the number returned, which is
+the number add_format_info and Code receive; masking precedes format/version information; apply_mask flips exactly the
+cells of the encoding region, and that region is the complement of all function patterns for the sizes examined; the
+four N1 sites share threshold 5 and score counter-2 (row/column siblings), N2 adds 3 per 2x2 block, the N3 literal is
+1011101 with 40 points and the search resumes within the smallest self-overlap shift of the literal, N4 equals
+10*floor(|100*dark/size^2 - 50| / 5) for every dark count of two sizes, the Micro score is min*16+max over the last
+column/row without index 0; mask arguments are normalised (0-7 / 0-3, numeric strings). NOT decided: that the N1/N2/N3
+counting loops compute the ISO counts for every matrix (algorithmic, content-dependent).''')
+
+
+@rule('C06', 'R1', 10, 'mask predicates = ISO Table 10 (truth table over a 24x24 window); tuples in ISO order')
+def r1(fx):
+    fn = fx.fn('encoder', 'get_data_mask_functions')
+    it = Interp(max_steps=20_000_000)
+    f = make_callable(fx.forest, 'encoder', 'get_data_mask_functions', it)
+    qr, mi = f(False), f(True)
+    yield ob('QR tuple has 8 predicates, Micro 4', len(qr) == 8 and len(mi) == 4, fn, got=(len(qr), len(mi)), want=(8, 4))
+    need(len(qr) == 8 and len(mi) == 4, 'mask tuple lengths')
+    W = 24
+    for k, fv in enumerate(qr):
+        bad = None
+        for i in range(W):
+            for j in range(W):
+                got = bool(fv(i, j))
+                if got != iso.MASKS[k](i, j) and bad is None:
+                    bad = (i, j, got)
+        yield ob(f'QR mask {k} ({getattr(fv.node, "name", "?")})', bad is None, fv.node,
+                 got=f'(i={bad[0]}, j={bad[1]}) -> {bad[2]}' if bad else 'ISO condition', want='ISO Table 10 condition ' + str(k))
+    names = [getattr(x.node, 'name', '?') for x in mi]
+    want_names = [getattr(qr[k].node, 'name', '?') for k in iso.MICRO_MASKS]
+    yield ob('Micro tuple = QR predicates 1, 4, 6, 7 in this order', names == want_names, fn, got=names, want=want_names)
+
+
+class _Tag:
+    """A mask predicate stand-in that remembers its number."""
+
+    def __init__(self, k):
+        self.k = k
+
+    def __call__(self, i, j):
+        return 0
+
+
+def _selection_env(fx, it, scores, micro, log):
+    def apply_mask(matrix, mask_pattern, width, height, is_encoding_region):
+        log.append(('apply', id(matrix), mask_pattern.k))
+        matrix_tags[id(matrix)] = mask_pattern.k
+        matrix_objs[id(matrix)] = matrix
+    matrix_tags, matrix_objs = {}, {}
+    cnt = [0]
+
+    def evaluate(m, width, height):
+        k = matrix_tags.get(id(m))
+        log.append(('eval', k))
+        cnt[0] += 1
+        return scores[k]
+    n = 4 if micro else 8
+
+    def masks(is_micro):
+        return tuple(_Tag(k) for k in range(4 if is_micro else 8))
+    genv = encoder_env(fx.forest, it, apply_mask=apply_mask, evaluate_mask=evaluate, evaluate_micro_mask=evaluate,
+                       get_data_mask_functions=masks, **reg.model_env())
+    return genv, matrix_tags, matrix_objs
+
+
+@rule('C06', 'R2', 16, 'selection: lowest-numbered optimum (min for QR, max for Micro), candidates are row copies, result is the matching matrix')
+def r2(fx):
+    fn = fx.fn('encoder', 'find_and_apply_best_mask')
+    it = Interp(max_steps=20_000_000)
+    vectors = {
+        False: [[5, 3, 3, 7, 9, 3, 8, 8], [1, 1, 1, 1, 1, 1, 1, 1], [8, 7, 6, 5, 4, 3, 2, 1], [1, 2, 3, 4, 5, 6, 7, 8],
+                [9, 9, 9, 9, 9, 9, 9, 2], [4, 9, 4, 9, 4, 9, 4, 9], [10 ** 7, 10 ** 7, 5 * 10 ** 6, 10 ** 7, 10 ** 7, 5 * 10 ** 6, 10 ** 7, 10 ** 7],
+                [0, 0, 5, 5, 0, 0, 5, 5]],
+        True: [[5, 7, 7, 3], [2, 2, 2, 2], [1, 2, 3, 4], [4, 3, 2, 1], [0, 0, 0, 0], [0, 9, 0, 9], [300, 300, 299, 300], [0, 0, 0, 1]],
+    }
+    for micro in (False, True):
+        n = 11 if micro else 21
+        for sc in vectors[micro]:
+            log = []
+            genv, tags, objs = _selection_env(fx, it, sc, micro, log)
+            f = FuncVal(fn, genv, it)
+            m = genv['make_matrix'](n, n)
+            grid0 = m.grid()
+            res = f(m, n, n)
+            best = (max if micro else min)(sc)
+            want = sc.index(best)
+            ok = isinstance(res, tuple) and len(res) == 2 and res[0] == want
+            # the matrix returned is the candidate that was masked with pattern `want`, and a distinct object per candidate
+            cand_ok = False
+            if ok:
+                rm = res[1]
+                rows = list(rm) if isinstance(rm, (tuple, list, reg.Matrix)) else None
+                applied = [x for x in log if x[0] == 'apply']
+                ids = {x[1] for x in applied}
+                cand_ok = (len(applied) == len(sc) and len(ids) == len(sc) and [x[2] for x in applied] == list(range(len(sc)))
+                           and rows is not None and objs.get([x[1] for x in applied if x[2] == want][0]) is not None
+                           and list(objs[[x[1] for x in applied if x[2] == want][0]]) == rows
+                           and m.grid() == grid0
+                           and all(all(r1 is not r0 for r0 in m.rows) for mid in ids for r1 in objs[mid]))
+            yield ob(f'{"Micro" if micro else "QR"} scores {sc}', ok and cand_ok, fn,
+                     got=f'returns pattern {res[0] if isinstance(res, tuple) else res}; candidates distinct row copies, input untouched, '
+                         f'result is the chosen candidate: {cand_ok}',
+                     want=f'pattern {want} (lowest-numbered {"maximum" if micro else "minimum"}) and its masked copy')
+
+
+@rule('C06', 'R3', 12, 'requested mask: exactly that predicate is applied to the matrix and that number is returned')
+def r3(fx):
+    fn = fx.fn('encoder', 'find_and_apply_best_mask')
+    it = Interp(max_steps=20_000_000)
+    for micro in (False, True):
+        n = 11 if micro else 21
+        for k in range(4 if micro else 8):
+            log = []
+            genv, tags, objs = _selection_env(fx, it, [0] * 8, micro, log)
+            f = FuncVal(fn, genv, it)
+            m = genv['make_matrix'](n, n)
+            res = f(m, n, n, k)
+            ok = isinstance(res, tuple) and res[0] == k and res[1] is m and log == [('apply', id(m), k)]
+            yield ob(f'{"Micro" if micro else "QR"} requested mask {k}', ok, fn, got=(res[0] if isinstance(res, tuple) else res, log),
+                     want=f'({k}, the given matrix), one apply_mask with predicate {k}, no evaluation')
+    enc = fx.fn('encoder', '_encode')
+    a = single([s for s in enc.body if isinstance(s, ast.Assign) and 'find_and_apply_best_mask' in ast.unparse(s.value)], 'mask stage')
+    b = pat.need(a.value, 'find_and_apply_best_mask(matrix, width, height, H_m)', 'mask stage call')
+    yield ob('_encode passes its mask argument as the proposed mask', pat.slot(b['m'], ['mask'], 'proposed mask'), a,
+             got=ast.unparse(a.value), want='find_and_apply_best_mask(matrix, width, height, mask)')
+
+
+def _region_closure(fx, it, n):
+    """The is_encoding_region closure find_and_apply_best_mask builds for an n x n symbol."""
+    fn = fx.fn('encoder', 'find_and_apply_best_mask')
+    got = {}
+
+    def apply_mask(matrix, mask_pattern, width, height, is_encoding_region):
+        got['f'] = is_encoding_region
+    genv = encoder_env(fx.forest, it, apply_mask=apply_mask, **reg.model_env())
+    m = genv['make_matrix'](n, n)
+    FuncVal(fn, genv, it)(m, n, n, 0)
+    need('f' in got, 'apply_mask was not called with a region predicate')
+    return got['f']
+
+
+@rule('C06', 'R5', 10, 'apply_mask flips exactly the encoding region = complement of all function patterns')
+def r5(fx):
+    it = Interp(max_steps=200_000_000)
+    # (a) apply_mask itself
+    fn = fx.fn('encoder', 'apply_mask')
+    f = make_callable(fx.forest, 'encoder', 'apply_mask', it, extra_env=reg.model_env())
+    m = reg.Matrix([reg.Row([0, 1, 0]), reg.Row([1, 1, 0]), reg.Row([0, 0, 1])])
+    before = m.grid()
+    region = {(0, 1), (1, 1), (2, 0), (2, 2)}
+    pattern = {(0, 1): 1, (1, 1): 0, (2, 0): 1, (2, 2): 1, (0, 0): 1, (1, 2): 1}
+    f(m, lambda i, j: pattern.get((i, j), 0), 3, 3, lambda i, j: (i, j) in region)
+    want = [[before[i][j] ^ (pattern.get((i, j), 0) if (i, j) in region else 0) for j in range(3)] for i in range(3)]
+    yield ob('apply_mask XORs the predicate into region cells only', m.grid() == want, fn, got=m.grid(), want=want)
+    # (b) the region
+    sizes = list(iso.ALL_VERSIONS) if fx.tier == 'thorough' else [-3, -2, -1, 0, 1, 2, 6, 7, 14]
+    ffn = fx.fn('encoder', 'find_and_apply_best_mask')
+    for v in sizes:
+        n = iso.size_of(v)
+        reg_f = _region_closure(fx, it, n)
+        lay = iso.layout(v)
+        bad = []
+        for i in range(n):
+            for j in range(n):
+                got = bool(reg_f(i, j))
+                if got != ((i, j) not in lay):
+                    bad.append(((i, j), got))
+        yield ob(f'v{v}: encoding region = complement of function patterns ({n * n} cells)', not bad, ffn, got=bad[:5], want=[])
+
+
+@rule('C06', 'R6', 7, 'N1: four sites share threshold >= 5 and score counter - 2 (row/column siblings); N2: 3 per 2x2 block')
+def r6(fx):
+    fn = fx.fn('encoder', 'mask_scores')
+    sites = {'n1_row_counter': [], 'n1_col_counter': []}
+    other = []
+    for s in src.statements(fn.body):
+        if isinstance(s, ast.If):
+            b = pat.match(s.test, 'H_x >= H_c')
+            if b is not None and isinstance(b['x'], ast.Name) and b['x'].id in sites:
+                sites[b['x'].id].append((s, b))
+            elif any(nm in ast.unparse(s.test) for nm in sites) and '==' not in ast.unparse(s.test):
+                other.append(s)
+    yield ob('no N1 test of another shape', not other, fn, got=[ast.unparse(o.test) for o in other], want=[])
+    for name, lst in sites.items():
+        yield ob(f'{name}: two scoring sites (inside the scan, at the line end)', len(lst) == 2, fn, got=len(lst), want=2)
+        for s, b in lst:
+            thr = ev.ev(b['c'], {})
+            body = single(s.body, 'N1 scoring statement')
+            bb = pat.match(body, f'score_n1 += {name} - H_d', mode='stmt')
+            yield ob(f'{name} site line-scan/line-end: threshold 5, score counter - 2',
+                     thr == 5 and bb is not None and ev.ev(bb['d'], {}) == 2 and not s.orelse, s,
+                     got=ast.unparse(s)[:90], want=f'if {name} >= 5: score_n1 += {name} - 2')
+    # counters restart at 1, increment by 1
+    for name in sites:
+        incs = [s for s in src.statements(fn.body) if isinstance(s, ast.AugAssign) and ast.unparse(s.target) == name]
+        sets = [s for s in src.statements(fn.body) if isinstance(s, ast.Assign) and ast.unparse(s.targets[0]) == name]
+        ok = [ast.unparse(s) for s in incs] == [f'{name} += 1'] and sorted(ast.unparse(s.value) for s in sets) == ['0', '1']
+        yield ob(f'{name}: +1 per equal neighbour, restart at 1, initial 0', ok, fn, got=[ast.unparse(s) for s in incs + sets],
+                 want=f'{name} += 1; {name} = 1; {name} = 0')
+    n2 = [s for s in src.statements(fn.body) if isinstance(s, ast.AugAssign) and ast.unparse(s.target) == 'score_n2']
+    s2 = single(n2, 'N2 scoring statement')
+    g = nf.guards_of(s2, fn)
+    okn2 = ev.ev(s2.value, {}) == 3 and isinstance(s2.op, ast.Add)
+    cond = g[-1][0] if g else None
+    okc = cond is not None and nf.norm(cond) == nf.norm(ast.parse(
+        'last_row and j and row_current_bit == row_prev_bit == last_row[j] == last_row[j - 1]', mode='eval').body)
+    yield ob('N2: +3 when the 2x2 block (j-1..j, previous row..row) is uniform', okn2 and okc, s2,
+             got=f'{ast.unparse(s2)} if {ast.unparse(cond) if cond is not None else None}',
+             want='score_n2 += 3 if last_row and j and row[j] == row[j-1] == last_row[j] == last_row[j-1]')
+
+
+def _self_overlap(lit):
+    for k in range(1, len(lit)):
+        if lit[k:] == lit[:len(lit) - k]:
+            return k
+    return len(lit)
+
+
+@rule('C06', 'R7', 5, 'N3: literal 1011101, 40 points, light-area test 4 wide on either side or symbol edge, search resumes within the self-overlap shift')
+def r7(fx):
+    fn = fx.fn('encoder', 'mask_scores')
+    occ = fx.fn('encoder', 'mask_scores.n3_pattern_occurrences')
+    lit = single([s for s in fn.body if isinstance(s, ast.Assign) and ast.unparse(s.targets[0]) == 'n3_pattern'], 'N3 literal')
+    val = list(ev.ev(lit.value, {}))
+    yield ob('N3 literal', val == [1, 0, 1, 1, 1, 0, 1], lit, got=val, want=[1, 0, 1, 1, 1, 0, 1])
+    s = _self_overlap(val)
+    w = single([x for x in occ.body if isinstance(x, ast.While)], 'while loop of the N3 search')
+    pat.need(w.test, 'idx != -1', 'N3 loop condition')
+    finds = [c for c in src.calls_in(w) if pat.match(c, 'seq.find(n3_pattern, H_o)') is not None]
+    f = single(finds, 'seq.find(n3_pattern, offset) inside the loop')
+    o = pat.match(f, 'seq.find(n3_pattern, H_o)')['o']
+    # all definitions of the resume expression inside the loop
+    exprs = [o]
+    if isinstance(o, ast.Name):
+        exprs = [a.value for a in src.statements(w.body) if isinstance(a, ast.Assign) and ast.unparse(a.targets[0]) == o.id]
+        need(exprs, f'no definition of {o.id} in the N3 loop')
+    shifts = []
+    for e in exprs:
+        a = nf.affine(e)
+        if set(a) - {'', 'idx'} or a.get('idx') != 1:
+            raise Unknown(f'N3 resume offset `{ast.unparse(e)}` is not idx + constant')
+        shifts.append(a[''])
+    yield ob(f'search resumes at idx + k with 1 <= k <= {s} (smallest self-overlap shift of the literal)',
+             all(1 <= k <= s for k in shifts), f, got=[f'idx + {k}' for k in shifts], want=f'idx + 1 .. idx + {s}')
+    st = nf.enclosing_stmt(f)
+    yield ob('the resumed search is the loop variable update on every path', isinstance(st, ast.Assign) and ast.unparse(st.targets[0]) == 'idx'
+             and st in w.body, st, got=ast.unparse(st), want='idx = seq.find(n3_pattern, idx + k) at loop level')
+    sc = [x for x in src.statements(w.body) if isinstance(x, ast.AugAssign) and ast.unparse(x.target) == 'count']
+    c = single(sc, 'N3 scoring statement')
+    g = nf.guards_of(c, occ)
+    cond = g[-1][0]
+    want = ('idx in (0, qr_size - 7) or not any(seq[max(idx - 4, 0):min(idx, qr_size)]) '
+            'or not any(seq[max(offset, 0):min(offset + 4, qr_size)])')
+    offs = [a for a in src.statements(w.body) if isinstance(a, ast.Assign) and ast.unparse(a.targets[0]) == 'offset']
+    ok_off = len(offs) == 1 and nf.affine(offs[0].value) == {'idx': 1, '': 7} and w.body.index(offs[0]) < w.body.index(nf.enclosing_stmt(cond))
+    yield ob('40 points when at the symbol edge or 4 light modules precede or follow', ev.ev(c.value, {}) == 40
+             and nf.norm(cond) == nf.norm(ast.parse(want, mode='eval').body) and ok_off, c,
+             got=f'count += {ast.unparse(c.value)} if {ast.unparse(cond)}; offset = {ast.unparse(offs[0].value) if offs else None}', want='count += 40 if ' + want + '; offset = idx + 7')
+    # used for rows and columns
+    uses = [x for x in src.calls_in(fn, 'n3_pattern_occurrences', into_nested=False)]
+    args = sorted(ast.unparse(u.args[0]) for u in uses)
+    yield ob('N3 evaluated for every row and every column', args == ['n3_column', 'row'], fn, got=args, want=['n3_column', 'row'])
+
+
+@rule('C06', 'R8', 6, 'N4 = 10*floor(|100*dark/size^2 - 50|/5) for every dark count; Micro score = min*16 + max over last column/row without index 0')
+def r8(fx):
+    fn = fx.fn('encoder', 'mask_scores')
+    it = Interp(max_steps=50_000_000)
+    stm = [s for s in fn.body if isinstance(s, ast.Assign) and ast.unparse(s.targets[0]) in ('percent', 'score_n4')]
+    need(len(stm) >= 1 and ast.unparse(stm[-1].targets[0]) == 'score_n4', 'N4 statements')
+    ret = single([s for s in fn.body if isinstance(s, ast.Return)], 'return of mask_scores')
+    yield ob('mask_scores returns (n1, n2, n3, n4)', pat.match(ret.value, '(score_n1, score_n2, score_n3, score_n4)') is not None, ret,
+             got=ast.unparse(ret.value), want='score_n1, score_n2, score_n3, score_n4')
+    em = fx.fn('encoder', 'evaluate_mask')
+    r = single([s for s in em.body if isinstance(s, ast.Return)], 'return of evaluate_mask')
+    yield ob('evaluate_mask = sum of the four scores', pat.match(r.value, 'sum(mask_scores(matrix, width, height))') is not None, r,
+             got=ast.unparse(r.value), want='sum(mask_scores(matrix, width, height))')
+    genv = encoder_env(fx.forest, it)
+    for n in (21, 25):
+        bad = None
+        for dark in range(0, n * n + 1):
+            e = dict(genv, dark_module_counter=dark, qr_size=n)
+            it.block(stm, e)
+            want = 10 * int(abs(Fraction(100 * dark, n * n) - 50) / 5)
+            if e['score_n4'] != want and bad is None:
+                bad = (dark, e['score_n4'], want)
+        yield ob(f'N4 for size {n}: every dark count 0..{n * n}', bad is None, stm[-1],
+                 got=f'dark={bad[0]}: {bad[1]}' if bad else 'ISO formula', want=f'{bad[2]}' if bad else 'ISO formula')
+    dm = [s for s in src.statements(fn.body) if isinstance(s, ast.AugAssign) and ast.unparse(s.target) == 'dark_module_counter']
+    d = single(dm, 'dark module counter update')
+    yield ob('dark counter adds every module once', ast.unparse(d) == 'dark_module_counter += row_current_bit'
+             and any(ast.unparse(x) == 'row_current_bit = row[j]' for x in src.statements(fn.body)), d, got=ast.unparse(d),
+             want='dark_module_counter += row[j] for every i, j')
+    # Micro
+    mf = fx.fn('encoder', 'evaluate_micro_mask')
+    f = make_callable(fx.forest, 'encoder', 'evaluate_micro_mask', it, extra_env=reg.model_env())
+    okm = True
+    detail = ''
+    for n in (11, 13, 15, 17):
+        # weights: right column cell (i, n-1) = 1 for the rows that must count; bottom row likewise
+        for (right, bottom) in ((3, 5), (5, 3), (4, 4), (0, 7), (n - 1, n - 1)):
+            rows = [[0] * n for _ in range(n)]
+            for i in range(1, 1 + right):
+                rows[i][n - 1] = 1
+            for j in range(1, 1 + bottom):
+                rows[n - 1][j] = 1
+            if right == n - 1 and bottom == n - 1:
+                rows[n - 1][n - 1] = 1
+            rows[0][n - 1] = 1      # must be ignored (timing row / column index 0)
+            rows[n - 1][0] = 1
+            s1 = sum(rows[i][n - 1] for i in range(1, n))
+            s2 = sum(rows[n - 1][j] for j in range(1, n))
+            want = min(s1, s2) * 16 + max(s1, s2)
+            got = f(reg.Matrix([reg.Row(r) for r in rows]), n, n)
+            if got != want:
+                okm = False
+                detail = f'size {n}, {s1} dark in last column, {s2} in last row: {got} (want {want})'
+    yield ob('Micro score = min(s1, s2) * 16 + max(s1, s2), s over last column / row, index 0 excluded', okm, mf,
+             got=detail or 'ISO 7.8.3.2 formula', want='ISO 7.8.3.2 formula')
+
+
+@rule('C06', 'R9', 11, 'normalize_mask: 0..7 (QR) / 0..3 (Micro), numeric strings accepted, everything else ValueError; factories forward mask')
+def r9(fx):
+    fn = fx.fn('encoder', 'normalize_mask')
+    it = Interp()
+    f = make_callable(fx.forest, 'encoder', 'normalize_mask', it)
+    for micro in (False, True):
+        hi = 4 if micro else 8
+        bad = []
+        for x in list(range(-2, 10)) + [str(k) for k in range(-1, 10)] + ['x', '']:
+            try:
+                got = f(x, micro)
+            except PyRaise as e:
+                got = f'raises {e.name}'
+            try:
+                xi = int(x)
+                want = xi if 0 <= xi < hi else 'raises ValueError'
+            except ValueError:
+                want = 'raises ValueError'
+            if got != want:
+                bad.append((x, got, want))
+        yield ob(f'normalize_mask micro={micro}', not bad and f(None, micro) is None, fn, got=bad[:3], want=[])
+    # encode normalises the mask against the class of the version actually used
+    enc = fx.fn('encoder', 'encode')
+    a = single([s for s in enc.body if isinstance(s, ast.Assign) and 'normalize_mask' in ast.unparse(s.value)], 'normalize_mask in encode')
+    b = pat.need(a.value, 'normalize_mask(mask, H_m)', 'normalize_mask call')
+    im = [s for s in enc.body if isinstance(s, ast.Assign) and ast.unparse(s.targets[0]) == 'is_micro']
+    okm = isinstance(b['m'], ast.Name) and b['m'].id == 'is_micro' and len(im) == 1 and nf.norm(im[0].value) == 'version < 1' \
+        and enc.body.index(im[0]) < enc.body.index(a) and \
+        all(enc.body.index(s) < enc.body.index(im[0]) for s in enc.body if isinstance(s, (ast.Assign, ast.If)) and any(
+            isinstance(t, ast.Name) and t.id == 'version' and isinstance(t.ctx, ast.Store) for t in ast.walk(s)))
+    yield ob('encode: mask range is chosen by the final version (is_micro = version < 1 after the version is fixed)', okm, a,
+             got=f'{ast.unparse(a)}; ' + '; '.join(ast.unparse(s) for s in im), want='is_micro = version < 1; mask = normalize_mask(mask, is_micro)')
+    yield from wrappers.forwarding(fx, {'mask'})
